@@ -27,6 +27,14 @@ Proof.
 Qed.
 Print Assumptions C06_leading_empty_child_refuted.
 
+(* "nothing beyond it", also for file nodes whose children have to be opened to be measured (File/UnsizedLoads.v): whatever
+   is unavailable, every block the extended reader requests - measuring included - is a block of the file's DAG *)
+From UV Require Import File.Unsized File.UnsizedLoads.
+Theorem C06_unsized_requests_inside : forall fault b off,
+  incl (sloads (ustreamL fault b off)) (tl (preorder b)).
+Proof. exact ustreamL_requests_inside. Qed.
+Print Assumptions C06_unsized_requests_inside.
+
 (* ---- sharded directories ---- *)
 From UV Require Import Hamt.Build Hamt.Read Hamt.ShardDecode Hamt.Refine Hamt.RefineTrace Hamt.RefineLength Base.Varint.
 From Coq Require Import Permutation.
